@@ -28,6 +28,10 @@ CHECKS = {
          "6", "bounded-exhaustive enumeration of (target, patch) with RFC 7386 reference algorithm"),
  "C10": ("jd's own RenderPatch output for every list-mode diff of the universes and every patch within 1 (thorough: 2) subset-preserving deviations of it, plus a complete small-scope enumeration of all 1- and 2-group patches (e in {0,1,2,-}, r,s<=2, context tests present/absent, values {1,2}, root and nested) on all arrays of length <= 3: whenever ReadPatchString+Patch succeeds the independent RFC 6902 evaluator must succeed with the same result",
          "6", "deviation-bounded and small-scope exhaustive enumeration of JSON Patch programs x targets with independent RFC 6902 evaluator"),
+ "C17": ("v1 library: all ordered pairs of the C01 universes x 7 metadata sets: in-memory and text-carried diff-then-patch must reproduce b (Equals and canonical-form oracle), diff empty <=> Equals <=> reference equality",
+         "6", "bounded-exhaustive enumeration of (a,b,metadata) on package lib with reference-model comparison"),
+ "C18": ("v1 library: all ordered pairs of the universes incl. integer-looking / escape-needing keys: RenderPatch evaluated by the independent RFC 6902 evaluator and RenderMerge by the RFC 7386 pseudocode must give b; read back with the v1 readers and applied to a must give b",
+         "6", "bounded-exhaustive enumeration of pairs with independent RFC 6902 / RFC 7386 evaluators"),
 }
 NOT_YET = {}
 def main():
